@@ -168,6 +168,12 @@ static int skip(int i, int k) { /* index after k ops starting at i */
 
 static void run(int i, int end);
 
+static int pidfd = -1;
+static void report_pid(void) {
+  if (pidfd < 0) return;
+  int keep = outfd; oflush(); outfd = pidfd; os("pid "); oi(sc(SYS_getpid, 0, 0, 0, 0, 0, 0)); nl(); oflush(); outfd = keep;
+}
+
 static void msleep(u64 ms) { i64 ts[2] = {(i64)(ms / 1000), (i64)(ms % 1000) * 1000000}; sc(SYS_nanosleep, (i64)ts, 0, 0, 0, 0, 0); }
 
 static void report_state(void) {
@@ -283,6 +289,7 @@ static void run(int i, int end) {
           sc(SYS_setsid, 0, 0, 0, 0, 0, 0);
           if (sc(SYS_fork, 0, 0, 0, 0, 0, 0) != 0) sc(SYS_exit_group, 0, 0, 0, 0, 0, 0);
         }
+        report_pid();
         run(body, after); oflush(); sc(SYS_exit_group, 0, 0, 0, 0, 0, 0);
       }
       lastpid = pid;
@@ -334,7 +341,7 @@ static void run(int i, int end) {
     else if (seq(op, "dfl")) { u64 sa[4] = {0 /*SIG_DFL*/, 0, 0, 0}; for (int s = 1; s <= 64; s++) sc(SYS_rt_sigaction, s, (i64)sa, 0, 8, 0, 0); }
     else if (seq(op, "block")) { u64 m = ~0UL; sc(SYS_rt_sigprocmask, 0, (i64)&m, 0, 8, 0, 0); }
     else if (seq(op, "setsid")) { os("setsid "); oi(sc(SYS_setsid, 0, 0, 0, 0, 0, 0)); nl(); }
-    else if (seq(op, "pid")) { int fd = (int)num(a1); int keep = outfd; oflush(); outfd = fd; os("pid "); oi(sc(SYS_getpid, 0, 0, 0, 0, 0, 0)); nl(); outfd = keep; }
+    else if (seq(op, "pid")) { pidfd = (int)num(a1); report_pid(); } /* sticky: every process created from now on reports too */
     else if (seq(op, "rv")) { /* rendezvous: announce on fd a1, wait for one byte on fd a2 */
       int keep = outfd; oflush(); outfd = (int)num(a1); os("rv "); os(a3); oc(' '); oi(sc(SYS_getpid, 0, 0, 0, 0, 0, 0)); nl(); outfd = keep;
       char c; i64 r; do { r = sc(SYS_read, (i64)num(a2), (i64)&c, 1, 0, 0, 0); } while (r == -4);
